@@ -466,6 +466,14 @@ impl Gen {
             },
             _ => {},
         }
+        if o.filter.is_some() && rng.chance(1, 3) {
+            // a custom filter on top of a kind filter
+            if rng.chance(1, 2) {
+                o.files = true;
+            } else {
+                o.dirs = true;
+            }
+        }
         o.follow = rng.chance(1, 3);
         o.sort_by_name = rng.chance(1, 3);
         match rng.below(6) {
